@@ -331,3 +331,37 @@ def run_cli_subprocess(argv, cwd=None, timeout=120):
     )
     return {"code": p.returncode, "stdout": p.stdout, "stderr": p.stderr,
             "exc": ("Traceback", "", None) if "Traceback (most recent call last)" in p.stderr else None}
+
+
+# --------------------------------------------------------------------------
+# which files reach Registry.run (C04/C15): test-side wrapper, active while _analysed is a list
+_analysed = None
+_analysed_installed = False
+
+
+def install_analysed():
+    global _analysed_installed
+    if _analysed_installed:
+        return
+    _analysed_installed = True
+    orig = Registry.run
+
+    def run(self, context):
+        if _analysed is not None:
+            _analysed.append(context.file.path)
+        return orig(self, context)
+
+    Registry.run = run
+
+
+def run_cli_observed(argv, cwd=None):
+    """run_cli + the list of file paths handed to Registry.run, in order."""
+    global _analysed
+    install_analysed()
+    _analysed = []
+    try:
+        o = run_cli(argv, cwd)
+    finally:
+        o_an, _analysed = _analysed, None
+    o["analysed"] = o_an
+    return o
